@@ -1,5 +1,5 @@
 # replay of a bounded stand-in violation (C06): re-run native/c06_measure.py
 import sys
-print('fock(pure=False) measure_fock([2, 1]) reported [1, 0]: the unmeasured mode(s) [0] are not in the conditional state of that outcome (max diff 0.602)')
+print('Catstate(1.2, 0.0, p=0.0); BSgate; heterodyne of q[1] post-selected on (0.3+0.4j): bosonic leaves q[0] with (<n>, <x>, <x_0.8>, <p>, <x^2>) = [0.6579, 0.9679, 0.6743, 0.0, 3.7558], the conditional state has [0.5138, 0.8667, 0.509, -0.1321, 3.4676]')
 print('REPLAY-VIOLATION')
 sys.exit(1)
